@@ -252,6 +252,7 @@ class Frame:
         self.local_imports = self.repo.function_imports(f)
         self.cur = None
         self.outer_conds = ()
+        self.closure_env = None
 
     # ------------------------------------------------------------ blocks
     def exec_block(self, stmts, st: State):
@@ -849,6 +850,11 @@ class Frame:
         if m is None:
             return None
         parts = q.split(".")
+        if "<locals>" in parts:
+            try:
+                return self.repo.func(ident)
+            except AnalysisError:
+                return None
         if parts[0] in m.classes:
             c = m.classes[parts[0]]
             if len(parts) == 1:
@@ -895,6 +901,8 @@ class Frame:
             # getattr(obj, "name", default): tracked store wins, else stays symbolic
             if (args[0], args[1][1]) in ev.heap:
                 return ev.heap[(args[0], args[1][1])]
+            if len(args) == 2 and isinstance(args[1][1], str):
+                return ev.load_attr(args[0], args[1][1])  # getattr(o, "name") is o.name
             return ("f", "getattr", tuple(args), ())
         if name in ("list", "tuple") and len(args) == 1 and args[0][0] in ("t", "l"):
             return (("l" if name == "list" else "t"), args[0][1])
@@ -1041,6 +1049,15 @@ class Frame:
             r = T.app("update_at", *args)
             self._record(f.ident, args, kwargs, e, r, recv)
             return r
+        is_closure = f.parent is not None and (f.parent is self.f or f.parent is getattr(self.f, "parent", None))
+        if is_closure and f.ident not in self.ev.no_inline and self.depth < self.ev.max_depth + 3:
+            # a local helper defined in the enclosing function: inline it with the
+            # enclosing frame's environment at the call (closure semantics); no depth cost
+            self._record(f.ident, args, kwargs, e, None, recv)
+            fr = Frame(self.ev, f, self.concrete, self.depth)
+            fr.outer_conds = self.outer_conds + (self.cur.conds if self.cur is not None else ())
+            fr.closure_env = dict(self.cur.env) if self.cur is not None else {}
+            return fr._run_inline(f, cls, recv, args, kwargs)
         if self._may_inline(f):
             self._record(f.ident, args, kwargs, e, None, recv)
             return self._inline(f, cls, recv, args, kwargs, e)
@@ -1099,7 +1116,13 @@ class Frame:
                 bound[a.kwarg.arg] = ("f", "kwargs", (("d", kw_items), extra_kw["**"]), ())
             else:
                 bound[a.kwarg.arg] = ("d", kw_items)
-        st.env.update(bound)
+        if getattr(self, "closure_env", None):
+            for k_, v_ in self.closure_env.items():
+                st.env.setdefault(k_, v_)
+            for k_, v_ in bound.items():
+                st.env[k_] = v_
+        else:
+            st.env.update(bound)
         self.exec_block(f.node.body, st)
         ret = st.ret
         if ret is None:
@@ -1368,9 +1391,10 @@ _MOD_CACHE: dict = {}
 def mod_summary(repo: Repo, f: FuncInfo, cls, _depth=0, _seen=None) -> set:
     """Attributes of ``self`` that *f* may store to (transitively through
     self-calls, bounded)."""
-    key = (id(repo), f.ident, getattr(cls, "ident", None))
-    if key in _MOD_CACHE:
-        return _MOD_CACHE[key]
+    cache = repo.__dict__.setdefault("_mod_cache", {})
+    key = (f.ident, getattr(cls, "ident", None))
+    if key in cache:
+        return cache[key]
     _seen = _seen or set()
     if f.ident in _seen or _depth > 4:
         return set()
@@ -1385,7 +1409,7 @@ def mod_summary(repo: Repo, f: FuncInfo, cls, _depth=0, _seen=None) -> set:
             if m is not None:
                 out |= mod_summary(repo, m, cls, _depth + 1, _seen)
     if _depth == 0:
-        _MOD_CACHE[key] = out
+        cache[key] = out
     return out
 
 
